@@ -11,9 +11,11 @@ import json, os, shutil, subprocess, sys, time
 
 ID = sys.argv[1]
 thorough = "--thorough" in sys.argv
-SRC = "/tmp/seed/%s/out" % ID
-WT = "/tmp/seedeval/%s" % ID
-DST = "/verif/seeded/%s" % ID
+ROOT = os.environ.get("SEED_SRC", "/tmp/seed")
+SUFFIX = os.environ.get("SEED_SUFFIX", "")
+SRC = "%s/%s/out" % (ROOT, ID)
+WT = "/tmp/seedeval/%s%s" % (ID, SUFFIX)
+DST = "/verif/seeded/%s%s" % (ID, SUFFIX)
 ran = []
 
 
@@ -68,7 +70,7 @@ try:
             shutil.copytree(os.path.join(SRC, f), os.path.join(WT, f), dirs_exist_ok=True)
         else:
             shutil.copy(os.path.join(SRC, f), os.path.join(WT, f))
-    cmd = demo_cmd.replace("/tmp/seed/%s/wt" % ID, WT).replace("/tmp/seed/%s/out" % ID, WT)
+    cmd = demo_cmd.replace("%s/%s/wt" % (ROOT, ID), WT).replace("%s/%s/out" % (ROOT, ID), WT)
     if not cmd:
         cmd = "go test -vet=off -count=1 -run 'Seed|Demo' ."
     # the agents' commands often start by copying the demo into their own worktree: already done here
